@@ -1,7 +1,7 @@
 (* C06 - A provider failure surfaces as that failure. *)
 From Coq Require Import List Arith Bool.
 Import ListNotations.
-Require Import Sem2 Safe Fault.
+Require Import Sem2 Safe Live Fault Term GenU GenSound.
 
 (* For EVERY thread program (no well-formedness needed) and every run without caller cancellation: an error
    returned by the injector is the error of a provider that really failed, or it is the internal context's error
@@ -23,3 +23,38 @@ Theorem C06_refuted : exists ls s, forallb nocancel ls = true /\ run kf_prog (in
   In (ExitErr 1) (s_trace s) /\ nth_error (s_thr s) 0 = Some (TDone (Some ECtxInt)).
 Proof. exists [LEnter 2; LExitErr 2; LWaitCtx 0]. eexists. split; [reflexivity|]. split; [vm_compute; reflexivity|]. split; vm_compute; auto. Qed.
 Print Assumptions C06_refuted.
+
+(* A provider failure is never swallowed: for every ranked well-synchronised program with an error result, in every run
+   (cancellation allowed), once some provider has failed the injector cannot return a nil error. *)
+Theorem C06_failure_reported : forall p rank ls s n e, wfl p rank -> p_reterr p = true -> run p (init p) ls = Some s ->
+  In (ExitErr n) (s_trace s) -> nth_error (s_thr s) 0 = Some (TDone e) -> e <> None.
+Proof. exact failure_is_reported. Qed.
+Print Assumptions C06_failure_reported.
+
+(* No provider that depends, directly or transitively, on a failed provider is ever entered - in any run. *)
+Theorem C06_no_dependent_invoked : forall p ls s, wf p -> run p (init p) ls = Some s ->
+  forall n, In (ExitErr n) (s_trace s) -> forall m, depends p m n -> forall vs, ~ In (Enter m vs) (s_trace s).
+Proof. exact no_dependent_entered. Qed.
+Print Assumptions C06_no_dependent_invoked.
+
+(* The injector still terminates: with an error result, every execution in which nothing more can happen (whatever
+   failed, whenever the caller cancelled) has the injector returned. *)
+Theorem C06_terminates : forall p rank ls s, wfl p rank -> 0 < length (p_threads p) -> p_reterr p = true -> run p (init p) ls = Some s ->
+  (forall l, l <> LCancel -> step p s l = None) -> exists e, nth_error (s_thr s) 0 = Some (TDone e).
+Proof. exact main_returns. Qed.
+Print Assumptions C06_terminates.
+
+(* ... and all of this for the program emitted for ANY accepted declaration *)
+Theorem C06_all_declarations : forall d g, unew_graph d = Gen.OK g ->
+  exists st, Threads.build (unp g) (upool g) (udeps g) (uisasync g) (uargs g) = Some st /\
+  forall ls s, run (uprog g st) (init (uprog g st)) ls = Some s ->
+    (forall n, In (ExitErr n) (s_trace s) -> forall m, depends (uprog g st) m n -> forall vs, ~ In (Enter m vs) (s_trace s)) /\
+    (p_reterr (uprog g st) = true -> (forall l, l <> LCancel -> step (uprog g st) s l = None) -> exists e, nth_error (s_thr s) 0 = Some (TDone e)) /\
+    (p_reterr (uprog g st) = true -> forall n e, In (ExitErr n) (s_trace s) -> nth_error (s_thr s) 0 = Some (TDone e) -> e <> None).
+Proof.
+  intros d g H. destruct (gen_sound d g H) as (st & B & W). exists st. split; [exact B|].
+  intros ls s R. split; [apply (no_dependent_entered _ ls s (wfl_wf _ _ W) R)|]. split.
+  - intros Re Hmax. apply (main_returns _ _ ls s W); auto. unfold uprog, Assembly.prog_of, Sched2.P. simpl. apply Nat.lt_0_succ.
+  - intros Re n e Hin H0. apply (failure_is_reported _ _ ls s n e W Re R Hin H0).
+Qed.
+Print Assumptions C06_all_declarations.
